@@ -264,7 +264,7 @@ func VerifC17_q_collectOnlyDead() {
 }
 
 
-// BOUND: one vanished or running container (arbitrary runtime answer) whose leftovers are any subset of {network state file, port file (well-formed or truncated, so that the port cleaner fails every time), ip file}; gc_dirs in the default order (state dir, then its port sub-directory) or with the port directory first; the port cleaner behaves like galaxy's cleanIPtables: it finds the mappings to remove only through the container's port file; up to two GC rounds
+// BOUND: one vanished or running container (arbitrary runtime answer) whose leftovers are any subset of {network state file, port file (well-formed or truncated, so that the port cleaner fails every time), ip file (6 forms of content: id alone, trailing newline, interface name on a second line, CRLF line ends, surrounding blanks)}; gc_dirs in the default order (state dir, then its port sub-directory) or with the port directory first; the port cleaner behaves like galaxy's cleanIPtables: it finds the mappings to remove only through the container's port file; up to two GC rounds
 // ASSUME: C17: the port-mapping cleaner is a harness model of Galaxy.cleanIPtables (reads and removes the container's port file, removes that container's rules), the iptables side is covered by C14
 func VerifC17_q_portMappingCollected() {
 	containerd := nondetBool()
@@ -292,7 +292,10 @@ func VerifC17_q_portMappingCollected() {
 		}
 	}
 	if hasIP {
-		ioutil.WriteFile(filepath.Join(ipDir, "172.16.0.9"), []byte("c1"), 0o644)
+		// the forms host-local and its ports write: the id alone, with a newline, with the interface name on a second
+		// line, with Windows line ends, with surrounding blanks
+		content := []string{"c1", "c1\n", "c1\neth0", "c1\r\neth0", " c1 \n", "c1\r\n"}[nondetChoice(6)]
+		ioutil.WriteFile(filepath.Join(ipDir, "172.16.0.9"), []byte(content), 0o644)
 	}
 	rulesInstalled := hasPort // a container with a port file has host-port rules in the nat table
 	cleanPort := func(id string) error {
